@@ -32,6 +32,7 @@ def tyUpdateClient : Nat := 6  -- ibc-go 02-client/types.MsgUpdateClient
 def tyVest : Nat := 7          -- x/auth/vesting/types.MsgCreateVestingAccount
 def tyVestPeriodic : Nat := 8  -- x/auth/vesting/types.MsgCreatePeriodicVestingAccount
 def tyVestPermanent : Nat := 9 -- x/auth/vesting/types.MsgCreatePermanentLockedAccount
+def tyMisbehaviour : Nat := 10 -- ibc-go 02-client/types.MsgSubmitMisbehaviour (deprecated, still routable)
 
 /-- A message as the decorator sees it: its type, the messages packed inside it (empty for
     non-wrappers), the message type named by its authorization (grants; 0 otherwise) and whether
@@ -123,6 +124,82 @@ def reach (W : Nat → Option Acc) : List Msg → List Nat → Option Msg
 def realWrappers : List (Nat × Acc) :=
   [(tyExec, .msgs), (tyGovSubmit, .msgs), (tyGroupSubmit, .msgs), (tyGrant, .grant)]
 
+/-! ## M-Ante routes: `NewAnteHandler` (app/ante/ante.go)
+
+    The tx's FIRST extension option alone selects the ante chain: a listed type URL → that route's
+    constructor, any other URL → rejected outright (default case), no extension option → the
+    `sdk.Tx` case.  The route table itself (URL → constructor → decorator constructors in order) is
+    regenerated into `Gen.Ante.routes`; what each decorator does *with the message types* is the
+    hand-written `classify` below (the trusted reading of the SDK / ethermint decorators). -/
+
+/-- what a decorator does with the transaction's message types -/
+inductive Dec where
+  | setup                               -- only prepares the context (gas meter); looks at no message
+  | reject                              -- the hub's RejectMessagesDecorator: `anteCheck`
+  | ethOnly (skippedOnRecheck : Bool)   -- fails unless EVERY message is a `*evmtypes.MsgEthereumTx`
+  | other                               -- anything else (fees, signatures, …): no verdict on message types
+  deriving DecidableEq, Repr
+
+/-- one route of `NewAnteHandler` -/
+structure Route where
+  ext : Option String      -- type URL of the first extension option; `none` = no extension option
+  handler : String         -- constructor of the ante chain
+  decs : List String       -- "<import path>.<Constructor>" of its decorators, in order
+  deriving DecidableEq, Repr
+
+/-- the decorators whose treatment of message types the model knows, by constructor.
+    `EthValidateBasicDecorator` loops over the messages with a type assertion but returns early on
+    ReCheckTx; `EthSigVerificationDecorator` does the same type assertion unconditionally. -/
+def classify (n : String) : Dec :=
+  if n = "app/ante.NewRejectMessagesDecorator" then .reject
+  else if n = "github.com/cosmos/cosmos-sdk/x/auth/ante.NewSetUpContextDecorator" then .setup
+  else if n = "github.com/evmos/ethermint/app/ante.NewEthSetUpContextDecorator" then .setup
+  else if n = "github.com/evmos/ethermint/app/ante.NewEthValidateBasicDecorator" then .ethOnly true
+  else if n = "github.com/evmos/ethermint/app/ante.NewEthSigVerificationDecorator" then .ethOnly false
+  else .other
+
+inductive RErr where
+  | unknownExt             -- unsupported extension option (no route)
+  | ante (e : Err)         -- the reject decorator's verdict
+  | notEth (ty : Nat)      -- a message that is not a MsgEthereumTx on an eth-only chain
+  deriving DecidableEq, Repr
+
+/-- the message-type verdict of a decorator chain; `none` = no decorator objects to the types -/
+def runDecs (c : Config) (recheck : Bool) : List Dec → List Msg → Option RErr
+  | [], _ => none
+  | .reject :: ds, tx =>
+    match anteCheck c tx with
+    | some e => some (.ante e)
+    | none => runDecs c recheck ds tx
+  | .ethOnly skip :: ds, tx =>
+    if skip && recheck then runDecs c recheck ds tx
+    else match tx.find? (fun m => m.ty != tyEthTx) with
+      | some m => some (.notEth m.ty)
+      | none => runDecs c recheck ds tx
+  | .setup :: ds, tx => runDecs c recheck ds tx
+  | .other :: ds, tx => runDecs c recheck ds tx
+
+def routeOf (rs : List Route) (ext : Option String) : Option Route := rs.find? (fun r => r.ext = ext)
+
+/-- `NewAnteHandler`'s closure as far as message types go -/
+def runAnte (c : Config) (rs : List Route) (recheck : Bool) (ext : Option String) (tx : List Msg) :
+    Option RErr :=
+  match routeOf rs ext with
+  | some r => runDecs c recheck (r.decs.map classify) tx
+  | none => some .unknownExt
+
+/-- the reject decorator comes first, after context set-up only -/
+def rejectFirst (ds : List Dec) : Bool :=
+  match ds.dropWhile (fun d => d == .setup) with
+  | .reject :: _ => true
+  | _ => false
+
+/-- some decorator that runs in every mode insists on MsgEthereumTx only -/
+def ethGuarded (ds : List Dec) : Bool := ds.contains (.ethOnly false)
+
+def routeGuarded (r : Route) : Bool :=
+  rejectFirst (r.decs.map classify) || ethGuarded (r.decs.map classify)
+
 /-! ## M-Guards: signer guards of privileged handlers (table driven) -/
 
 /-- what the handler compares the signer field with, before any write -/
@@ -138,8 +215,12 @@ inductive Guard where
 /-- one row of the regenerated guard table -/
 structure GuardEntry where
   id : Nat                 -- stable row number (position in the generated table)
+  isMsg : Bool             -- an rpc method of a custom module's gRPC Msg service (false: legacy gov content / route)
   hasAuthorityField : Bool -- the message struct has an `Authority` field
-  ownerOnly : Bool         -- named owner-only by the property (translator's fixed list)
+  govOnly : Bool           -- governance-only by declaration: `Authority` field, or `cosmos.msg.v1.signer` = authority,
+                           -- or declared in a governance service (a service other than `Msg`)
+  ownerOnly : Bool         -- derived by the extractor: the handler compares the signer with a stored non-authority
+                           -- value (owner / creator / buyer / controller / proposer) or looks up the signer's own object
   guard : Guard            -- what the extractor found
   guardFirst : Bool        -- no store write / bank call precedes the guard on the analysed path
   deriving DecidableEq, Repr
